@@ -4,6 +4,7 @@ import re
 from engine import rule, AnchorLost
 from model import enum_edge, Super, PathSens, fn_of, trace, strace, is_place, site, const_value, uses_of_local
 import common
+import vocab
 
 PARSER_CRATES = {"serde_json", "rmp_serde", "rmp", "serde_yaml", "toml", "toml_edit", "unsafe_libyaml"}
 
@@ -307,7 +308,7 @@ def r09_2(ctx):
 def conversion_supers(lib):
     """Supergraphs of the Handle -> Input conversions (`impl From/TryFrom<Handle> for Input`), with the
     same-crate helpers they delegate to inlined."""
-    conv = [b for b in lib.bodies if b.raw.get("impl_trait") in ("std::convert::From", "std::convert::TryFrom") and "Input<" in b.local_ty(0) and b.raw["def_kind"] == "AssocFn"]
+    conv = [b for b in lib.bodies if b.raw.get("impl_trait") in ("std::convert::From", "std::convert::TryFrom") and vocab.ty_is(b.local_ty(0), vocab.lib_vocab(lib.facts)["input"]) and b.raw["def_kind"] == "AssocFn"]
     return [(b, Super(lib, b, depth=3)) for b in conv]
 
 
